@@ -141,3 +141,47 @@ M('c14-async-in-loop-found-yield-without-cursor', 'C14', 'R8', A,
 M('c14-async-found-yield-start-saved-after-advance', 'C14', 'R8', A,
   "                buffer_pos = self._buffer_pos\n                self._buffer_pos = pos\n                yield self._buffer[buffer_pos:pos]\n",
   "                self._buffer_pos = pos\n                buffer_pos = self._buffer_pos\n                yield self._buffer[buffer_pos:pos]\n")
+
+# ------------------------------------------------------------------ R7 (extension): a delimiter search with an end bound
+# bytes.find(sub, start, end) needs the WHOLE match inside [start, end): a failed bounded search justifies a hand-out only
+# up to end - (len(delimiter) - 1)
+M('c14-async-search-capped-at-size-hint-conditional', 'C14', 'R7', A,          # seeded s2-c14-2
+  "            pos = self._buffer.find(delimiter, self._buffer_pos)\n",
+  "            end = self._buffer_pos + size_hint if size_hint > 0 else self._buffer_len\n"
+  "            pos = self._buffer.find(delimiter, self._buffer_pos, end)\n", also=['C13'])
+M('c14-async-search-capped-at-size-hint', 'C14', 'R7', A,
+  "pos = self._buffer.find(delimiter, self._buffer_pos)", "pos = self._buffer.find(delimiter, self._buffer_pos, self._buffer_pos + size_hint)", also=['C13'])
+M('c14-async-search-end-bound-off-by-one', 'C14', 'R7', A,
+  "pos = self._buffer.find(delimiter, self._buffer_pos)",
+  "pos = self._buffer.find(delimiter, self._buffer_pos, self._buffer_pos + size_hint + delimiter_len_1 - 1 if size_hint > 0 else self._buffer_len)", also=['C13'])
+M('c14-async-search-excludes-buffer-tail', 'C14', 'R7', A,
+  "pos = self._buffer.find(delimiter, self._buffer_pos)", "pos = self._buffer.find(delimiter, self._buffer_pos, self._buffer_len - delimiter_len_1)", also=['C13'])
+M('c14-async-search-in-capped-slice', 'C14', 'R7', A,
+  "            pos = self._buffer.find(delimiter, self._buffer_pos)\n",
+  "            window = self._buffer[: self._buffer_pos + size_hint] if size_hint > 0 else self._buffer\n"
+  "            pos = window.find(delimiter, self._buffer_pos)\n", also=['C13'])
+
+# ------------------------------------------------------------------ R9 conservation of the cursor (sync reader)
+M('c14-sync-finalize-install-chunk-stale-cursor', 'C14', 'R9', S,          # seeded s2-c14-1
+  "            if self._buffer_len == 0:\n                self._buffer = next_chunk\n",
+  "            if self._buffer_len <= self._buffer_pos:\n                self._buffer = next_chunk\n")
+M('c14-sync-read-until-empty-buffer-cursor-kept', 'C14', 'R9', S,
+  "                self._buffer_len = next_chunk_len\n                self._buffer_pos = 0\n                self._buffer = next_chunk\n                continue\n",
+  "                self._buffer_len = next_chunk_len\n                self._buffer = next_chunk\n                continue\n")
+M('c14-sync-read-until-next-chunk-cursor-kept', 'C14', 'R9', S,
+  "                result.append(self._buffer)\n            self._buffer_len = next_chunk_len\n            self._buffer_pos = 0\n",
+  "                result.append(self._buffer)\n            self._buffer_len = next_chunk_len\n")
+M('c14-sync-read-refill-cursor-zero', 'C14', 'R9', S,
+  "        self._buffer_pos = read_size\n", "        self._buffer_pos = 0\n")
+M('c14-sync-fill-trim-cursor-kept', 'C14', 'R9', S,
+  "                    read_size\n                )\n                self._buffer_pos = 0\n", "                    read_size\n                )\n")
+M('c14-sync-finalize-trim-cursor-kept', 'C14', 'R9', S,
+  "                self._buffer_len = self._buffer_len - self._buffer_pos + next_chunk_len\n                self._buffer_pos = 0\n",
+  "                self._buffer_len = self._buffer_len - self._buffer_pos + next_chunk_len\n")
+M('c14-sync-backlog-gets-consumed-bytes-again', 'C14', 'R9', S,
+  "                result.append(self._buffer[self._buffer_pos :])\n", "                result.append(self._buffer)\n")
+M('c14-sync-big-read-drops-buffered-remainder', 'C14', 'R9', S,
+  "            return result + self._perform_read(read_size)\n", "            return self._perform_read(read_size)\n")
+M('c14-sync-backlog-misses-drained-buffer', 'C14', 'R9', S,
+  "            else:\n                result.append(self._buffer)\n            self._buffer_len = next_chunk_len\n",
+  "            self._buffer_len = next_chunk_len\n")
